@@ -102,7 +102,7 @@ theorem startSrc_cAlloc (cfg : Cfg) (src : Src) (ctx : Option Nat) (g : G) :
   | unit => simp [startSrc]
   | sharedReady r => simp [startSrc]
   | sharedContract p f => simp [startSrc, innerWait]
-  | sharedKept p f pre => cases h : g.isSet p pre <;> simp [startSrc, h, innerWait]
+  | sharedKept e p f pre => cases h : g.isSet p pre <;> simp [startSrc, h, innerWait]
 
 theorem startLazy_cAlloc (cfg : Cfg) (src : Src) (ovr : Option Exec) (ctx : Option Nat) (g : G) :
     match startLazy cfg src ovr ctx g with
@@ -123,7 +123,7 @@ theorem startLazy_cAlloc (cfg : Cfg) (src : Src) (ovr : Option Exec) (ctx : Opti
   | unit => simpa [startLazy] using startSrc_cAlloc cfg .unit ctx g
   | sharedReady r => simpa [startLazy] using startSrc_cAlloc cfg (.sharedReady r) ctx g
   | sharedContract p f => simpa [startLazy] using startSrc_cAlloc cfg (.sharedContract p f) ctx g
-  | sharedKept p f pre => simpa [startLazy] using startSrc_cAlloc cfg (.sharedKept p f pre) ctx g
+  | sharedKept e p f pre => simpa [startLazy] using startSrc_cAlloc cfg (.sharedKept e p f pre) ctx g
 
 theorem asyncFinish_alloc (ty : Nat) (own : Exec) (k : List Step) (lazy : Bool) (ctx : Option Nat) (o : Out)
     (B extra : Nat) (h : AllocOut B (innerSteps k + extra) [] o) :
